@@ -46,7 +46,14 @@ Theorem C15_band_matrix_vector_partial : forall (row_major : bool) (L U dim : Z)
   adept_band_mv O row_major L U dim mem left_ptr (pack_offset (if row_major then BandR else BandC) L U dim) x0 incx i
   = band_mv_spec O row_major L U dim mem left_ptr (pack_offset (if row_major then BandR else BandC) L U dim) x0 incx i.
 Proof. exact (band_mv_correct O). Qed.
+(* symmetric matrix (either storage orientation) x vector through ?symv: the triangle letter chosen in matmul_symmetric and the
+   exchange made by the wrapper for row-major calls (both GENERATED from the sources) select exactly the triangle the
+   symmetric engine stores; row i of the result is the full defining sum, for every n and every engine offset *)
+Theorem C15_symmetric_matrix_vector_partial : forall (row_lower_col_upper : bool) (n : Z) (mem : Z -> T) (left_ptr left_offset x0 incx i : Z),
+  adept_symm_mv O row_lower_col_upper n mem left_ptr left_offset x0 incx i = symm_mv_spec O row_lower_col_upper n mem left_ptr left_offset x0 incx i.
+Proof. exact (symm_mv_correct O). Qed.
 End AnyRing.
+Print Assumptions C15_symmetric_matrix_vector_partial.
 Print Assumptions C15_band_matrix_vector_partial.
 Print Assumptions C15_dense_matrix_matrix_partial.
 Print Assumptions C15_result_placement.
